@@ -145,8 +145,11 @@ type Conn struct {
 }
 
 // Pair returns two connected ends; capacity 0 means unbounded buffering per direction.
-func Pair(capacity int) (a, b *Conn) {
-	ab, ba := newHalf(capacity), newHalf(capacity)
+func Pair(capacity int) (a, b *Conn) { return PairAsym(capacity, capacity) }
+
+// PairAsym: capAB bounds what a has written and b has not read yet, capBA the other direction (0: unbounded).
+func PairAsym(capAB, capBA int) (a, b *Conn) {
+	ab, ba := newHalf(capAB), newHalf(capBA)
 	return &Conn{in: ba, out: ab, name: "a"}, &Conn{in: ab, out: ba, name: "b"}
 }
 
